@@ -20,8 +20,8 @@ Inductive c14case :=
     oerr, the intervals as (dur, state), the cycle, the states at [secs] (-1 = panic) *)
 | CLoss (id : Z) (pattern : list Z) (oerr : bool) (oitvls : list (Z * Z)) (ocycle : Z)
         (secs : list Z) (ostates : list Z)
-(** the BaseURL elements of the MPD *)
-| CBase (id : Z) (pattern : list Z) (obase : list string).
+(** the BaseURL elements of the MPD (status 400 and none for an invalid parameter) *)
+| CBase (id : Z) (pattern : list Z) (ostatus : Z) (obase : list string).
 
 Definition c_id (c : c14case) : Z :=
   match c with
@@ -29,7 +29,7 @@ Definition c_id (c : c14case) : Z :=
   | CCalc id _ _ _ _ _ _ _ _ _ _ => id
   | CTraffic id _ _ _ _ _ _ _ _ => id
   | CLoss id _ _ _ _ _ _ => id
-  | CBase id _ _ => id
+  | CBase id _ _ _ => id
   end.
 
 Definition ansView (a : answer) : Z * string :=
@@ -82,10 +82,11 @@ Definition case_ok (c : c14case) : bool :=
   | CLoss _ pattern oerr oitvls ocycle secs ostates =>
     let '(e, l, cy, sts) := lossView pattern secs in
     Bool.eqb e oerr && list_eqb pairZ_eqb l oitvls && (cy =? ocycle) && list_eqb Z.eqb sts ostates
-  | CBase _ pattern obase =>
+  | CBase _ pattern ostatus obase =>
     match createAllLossItvls pattern with
-    | Ok traffic => list_eqb String.eqb (mpdBaseURLs traffic) obase
-    | _ => false
+    | Ok traffic => (ostatus =? 200) && list_eqb String.eqb (mpdBaseURLs traffic) obase
+    | Err _ => (ostatus =? 400) && list_eqb String.eqb [] obase
+    | Panic _ => false
     end
   end.
 
@@ -107,5 +108,5 @@ Definition model_view (c : c14case) : mview :=
   | CTraffic _ pattern segPart now bp bs _ _ _ =>
     let '(s, d, p) := trafficView pattern segPart now bp bs in VTraffic s d p
   | CLoss _ pattern _ _ _ secs _ => VLoss (lossView pattern secs)
-  | CBase _ pattern _ => VBase (do t <- createAllLossItvls pattern; Ok (mpdBaseURLs t))
+  | CBase _ pattern _ _ => VBase (do t <- createAllLossItvls pattern; Ok (mpdBaseURLs t))
   end.
